@@ -32,8 +32,8 @@ open_("K1", "C18", "probe_K1", "controlled U3 (any number of controls) with (phi
       "decomposed circuit == original * (phase exp(-i(phi+lambda)/2) on the all-controls-1 block), up to global phase",
       {"gate": "U3(0.3,0.5,0.9).controlled(1)(0,1)"},
       "controlled-U3 decomposition drops the relative phase exp(i(phi+lambda)/2); repair would add a phase gate and break test_CU3_decomposition_comprises_only_controlled_rotations")
-open_("K2", "C07", "probe_K2", "non-integer power above a base gate flagged is_hermitian (X,Y,Z,H,CNOT,CZ,SWAP,GPi) with dagger applied above it",
-      "M(g.power(p).dagger) == M(g.power(p)) (the dagger is the same gate), which is not the adjoint",
+open_("K2", "C07", "probe_K2", "dagger applied (directly, or above controls / an exponential) to a non-integer power whose operand has an eigenvalue on the negative real axis (e.g. the flagged self-adjoint gates X,Y,Z,H,CNOT,CZ,SWAP,GPi, or a user-defined gate with matrix X)",
+      "M(dagger) is exactly what pushing the adjoint through the power gives - (adjoint of w)**e instead of the adjoint of w**e; for a self-adjoint operand the dagger has the matrix of the gate itself",
       {"gate": "X.power(0.5).dagger"},
       "X.power(0.5).dagger is X.power(0.5) again, its matrix is not the adjoint; tests pin power.dagger == gate.dagger.power(e) and gate.dagger is gate")
 open_("K3", "C05", "probe_K3", "one gate mentioning both symbol b and indexed symbol b[i]",
